@@ -170,6 +170,12 @@ pub fn run(args: &Args) {
     let thorough = args.str("tier", "quick") == "thorough";
     let mode = args.str("mode", "ff"); // ff | apps | fault | race
     let mut log = EvLog::create(&out);
+    if mode == "phase" {
+        phase_sweep(&mut log, thorough, seed0, runs as i64);
+        log.flush();
+        eprintln!("ring(phase): {} events", log.count);
+        return;
+    }
     if mode == "claim" {
         claim_sweep(&mut log, thorough, seed0);
         log.flush();
@@ -423,6 +429,79 @@ fn claim_sweep(log: &mut EvLog, thorough: bool, seed: u64) {
                 log.push(json!({"ev":"End","t":t * TPU,"polls":st.polls,"txs":ntx,"collisions":0,"log_records":0}));
                 log.push(json!({"ev":"Reset"}));
             }
+        }
+    }
+}
+
+/// Two or three adjacent stations at the minimum slot time, polled with the maximal admissible period
+/// (Tsl/4) without jitter; all relative poll phases are swept.  This is the premise edge of C01 /
+/// C11: a supervised hand-over must complete before the supervisor's slot timer (Turnaround.tla).
+fn phase_sweep(log: &mut EvLog, thorough: bool, seed: u64, nph: i64) {
+    let mut rng = rand::rngs::StdRng::seed_from_u64(seed);
+    let setups: Vec<(Baudrate, i64, u16, Vec<u8>)> = if thorough {
+        vec![(Baudrate::B19200, 19200, 100, vec![1, 2]), (Baudrate::B500000, 500000, 200, vec![0, 1, 2]), (Baudrate::B93750, 93750, 100, vec![3, 4]), (Baudrate::B1500000, 1500000, 300, vec![0, 7])]
+    } else {
+        vec![(Baudrate::B19200, 19200, 100, vec![1, 2]), (Baudrate::B500000, 500000, 200, vec![0, 1, 2])]
+    };
+    let nphase: i64 = nph;
+    for (baud, rate, slot, addrs) in setups {
+        let n = addrs.len();
+        let slot_us = slot as i64 * 1_000_000 / rate;
+        let period = slot_us / 4;
+        for ph in 0..nphase.pow((n - 1) as u32) {
+            let mut phases = vec![0i64; n];
+            let mut x = ph;
+            for i in 1..n {
+                phases[i] = (x % nphase) * period / nphase;
+                x /= nphase;
+            }
+            let c = RingCfg { baud, rate, slot, hsa: addrs[n - 1] + 1, gap: 1, ttr: 30000, addrs: addrs.clone(), periods: vec![period; n], joins: vec![0; n], napps: vec![0; n] };
+            let bus = Bus::new(rate);
+            let cblog: CbLog = Rc::new(RefCell::new(vec![]));
+            let mut st: Vec<Station> = (0..n)
+                .map(|i| Station { addr: addrs[i], fdl: mk_station(&c, i), phy: VPhy::new(bus.clone(), i), apps: vec![], period, next: phases[i], join_at: 0, online: false, crashed: false, polls: 0 })
+                .collect();
+            let (bconv, brec) = bounds_ticks(&c);
+            let tsl = bits(rate, slot as i64);
+            log.push(json!({
+                "ev":"Cfg","mode":"ff","seed":ph,"stations":addrs,"hsa":c.hsa,"gap":1,"baud":rate,"slot_bits":slot,
+                "tid":bits(rate,33),"tsdr":bits(rate,11),"tsl":tsl,"tto":addrs.iter().map(|a| (6 + 2 * *a as i64) * tsl).collect::<Vec<_>>(),
+                "period":vec![period * TPU; n],"ttr":bits(rate, 30000),"bconv":bconv,"brec":brec,"us":TPU,"napps":vec![0; n],"apps":false,"cycle":0,
+                "phases":phases,
+            }));
+            for s in st.iter_mut() {
+                s.fdl.set_online();
+                s.online = true;
+                log.push(json!({"ev":"Online","st":s.addr,"t":0}));
+            }
+            let mut tokens = 0usize;
+            let mut conv_tokens: Option<usize> = None;
+            loop {
+                let (i, t) = st.iter().enumerate().map(|(i, s)| (i, s.next)).min_by_key(|x| x.1).unwrap();
+                if t * TPU > bconv {
+                    break;
+                }
+                if let PollOutcome::Panicked = poll_station(&mut st[i], t, &bus, &cblog, log, false) {
+                    break;
+                }
+                // jittered poll distances in [period/2, period] (the premise allows any period up to Tsl/4)
+                st[i].next = t + 1.max(period / 2 + rng.gen_range(0..=period / 2));
+                let b = bus.borrow();
+                tokens = b.txs.iter().filter(|x| x.bytes.first() == Some(&0xDC)).count();
+                let live: Vec<u8> = addrs.clone();
+                let ok = st.iter().all(|s| s.fdl.is_in_ring() && s.fdl.inspect_token_ring().iter_active_stations().collect::<Vec<u8>>() == live);
+                if ok && conv_tokens.is_none() {
+                    conv_tokens = Some(tokens);
+                }
+                if let Some(ct) = conv_tokens {
+                    if tokens > ct + 40 * n || b.collisions > 0 {
+                        break;
+                    }
+                }
+            }
+            let tend = st.iter().map(|s| s.next).min().unwrap() * TPU;
+            log.push(json!({"ev":"End","t":tend,"polls":0,"txs":tokens,"collisions":bus.borrow().collisions,"log_records":0}));
+            log.push(json!({"ev":"Reset"}));
         }
     }
 }
